@@ -85,6 +85,9 @@ def run(ctx: Ctx) -> None:
     ctx.rule("D11.8", "get_differentials neither loses nor duplicates "
              "samples")
     _compaction(ctx, fom)
+    ctx.rule("D11.9", "the surrogate optimizer writes model equations only "
+             "into a private copy of the system")
+    _scratch_system(ctx)
     ctx.assumptions += [
         "controllers and system equations do not mutate their inputs "
         "(C16 D16.6)",
@@ -1354,3 +1357,72 @@ def _compaction(ctx: Ctx, fom: ClassInfo) -> None:
            "own concatenation: nothing is lost or duplicated between "
            "evaluations" if not problems else "; ".join(problems),
            construct="compaction of the collections")
+
+
+
+# ------------------------------------------------------------------ D11.9
+def _scratch_system(ctx: Ctx) -> None:
+    """`set_raw()` restores `instance.system.equations`: the real equations
+    survive a surrogate phase only if nobody overwrites that attribute.
+    In `SurrogateOptimizer.solve` every local whose attributes are assigned
+    (`tmp.equations = model`, `setattr(tmp, ...)`) must be bound to a copy
+    (`copy(..)` / `deepcopy(..)`), never to an object reached from `self`
+    (an alias of the real system)."""
+    repo = ctx.repo
+    fi = repo.func("moptipyapps.dynamic_control.surrogate_optimizer",
+                   "SurrogateOptimizer.solve")
+    written: dict[str, ast.AST] = {}
+    for n in ast.walk(fi.node):
+        # the attribute that set_raw() reads back: `equations`
+        if isinstance(n, ast.Attribute) and isinstance(
+                n.ctx, ast.Store) and isinstance(n.value, ast.Name) and \
+                n.value.id != "self" and n.attr == "equations":
+            written.setdefault(n.value.id, n)
+        if isinstance(n, ast.Call) and isinstance(
+                n.func, ast.Name) and n.func.id == "setattr" and len(
+                n.args) >= 2 and isinstance(n.args[0], ast.Name) and \
+                n.args[0].id != "self" and repo.const(
+                fi.module, n.args[1]) == "equations":
+            written.setdefault(n.args[0].id, n)
+    n_sites = 0
+    for name, site in sorted(written.items()):
+        binds = [st.value for st in ast.walk(fi.node) if isinstance(
+            st, (ast.Assign, ast.AnnAssign)) and getattr(
+            st, "value", None) is not None and any(
+            isinstance(t, ast.Name) and t.id == name
+            for t in (st.targets if isinstance(st, ast.Assign)
+                      else [st.target]))]
+        if not binds:
+            continue                # a parameter / loop variable
+        n_sites += 1
+        bad = None
+        unknown = None
+        for v in binds:
+            if isinstance(v, ast.Constant) and v.value is None:
+                continue
+            if isinstance(v, ast.Call) and ast.unparse(v.func).split(
+                    ".")[-1] in ("copy", "deepcopy") and v.args:
+                continue
+            if isinstance(v, ast.Call) and isinstance(
+                    v.func, ast.Name) and v.func.id[:1].isupper():
+                continue            # a freshly constructed object
+            root = v
+            while isinstance(root, (ast.Attribute, ast.Subscript)):
+                root = root.value
+            if isinstance(root, ast.Name) and root.id == "self" and \
+                    isinstance(v, ast.Attribute):
+                bad = v
+            else:
+                unknown = v
+        ctx.ob("D11.9", fi, site, bad is None and unknown is None,
+               f"`{name}` (whose attributes solve() assigns) is a private "
+               "copy" if bad is None and unknown is None else (
+                   f"solve() assigns attributes of `{name}`, which is "
+                   f"`{ast.unparse(bad)}` itself and not a copy: the model "
+                   "equations are written into the real system, and "
+                   "set_raw() restores them as if they were the system's"
+                   if bad is not None else
+                   f"how `{name}` = `{ast.unparse(unknown)[:60]}` relates "
+                   "to the real system is not recognised"),
+               construct=f"scratch object {name}")
+    ctx.floor("scratch_objects", n_sites, 1)
